@@ -52,6 +52,6 @@ Theorem C13_text_each_matches_some : forall ct o e stripped gt ex merged rex,
   table_ok ct -> 1 <= z_max_strings_in_group o ->
   batch_oracle_okb ct o e stripped gt ex = true ->
   batch_renderable ct o e stripped gt ex = true ->
-  forall text, In text rex -> exists s, In s (ex_strings ex) /\ re_model_match ct text s = Some true.
+  forall text, In text rex -> exists s, In s (ex_strings ex) /\ re_model_fullmatch ct text s = Some true.
 Proof. exact batch_text_each_matches. Qed.
 Print Assumptions C13_text_each_matches_some.
